@@ -34,6 +34,10 @@ impl VisitableMut for Generics {
 }
 /// `dyn Tr +` is `dyn Tr` (a trailing `+` is legal in a trait object type).  The generated code names field types and
 /// self types in places where the trailing `+` is not (`<dyn Tr + as Trait>::f`), so it is built from a copy without it.
+///
+/// A type that comes from a `$t:ty` fragment of a `macro_rules!` macro is wrapped in an invisible group, which rustc
+/// ignores in the output of a procedural macro: it is unwrapped in that copy, too (into parentheses where `&'a $t`
+/// would otherwise become `&'a dyn A + B`), so that the type is seen as what it is.
 pub struct DropTrailingPlus;
 impl VisitMut for DropTrailingPlus {
     fn visit_type_trait_object_mut(&mut self, i: &mut syn::TypeTraitObject) {
@@ -43,6 +47,17 @@ impl VisitMut for DropTrailingPlus {
             }
         }
         syn::visit_mut::visit_type_trait_object_mut(self, i);
+    }
+    fn visit_type_mut(&mut self, i: &mut Type) {
+        visit_type_mut(self, i);
+        if let Type::Group(g) = i {
+            let elem = (*g.elem).clone();
+            *i = match &elem {
+                Type::TraitObject(t) if t.bounds.len() > 1 => parse_quote!((#elem)),
+                Type::ImplTrait(t) if t.bounds.len() > 1 => parse_quote!((#elem)),
+                _ => elem,
+            };
+        }
     }
 }
 
